@@ -11,6 +11,7 @@
   witness (`…_full_false`); the engine replays those witnesses on the real code on every run.
 -/
 import PonyVerif.Lemmas.TranslateMain
+import PonyVerif.Lemmas.Distinct
 namespace PonyVerif.Props.C01
 open PonyVerif.Model.Q
 
@@ -165,5 +166,55 @@ theorem C01_cond_full_false_not_in :
         (.and (.cons (.or (.cons (.like true (.column "ns") "%x%" false) (.cons (.isNull (.column "ns")) .nil))) .nil)) = some .tt ∧
       pySelected env0 (.like .contains true "x" (.attr "ns")) = false := by
   refine ⟨by rfl, by decide, by decide⟩
+
+/-! ### set semantics of projections: the DISTINCT inference -/
+
+/-- **C01_distinct_set** — for every entity (any primary key, simple or composite), every list of projected items and every table
+    content (objects have pairwise different keys): the rows `SELECT [DISTINCT]` returns under Pony's inference rule contain no
+    duplicates and are exactly the set of the Python tuples. -/
+theorem C01_distinct_set (pk : List String) (items : List Item) (rows : List DRow)
+    (hkeys : (rows.map (keyOf pk)).Nodup) :
+    (selectRows pk items rows).Nodup ∧ ∀ t, t ∈ selectRows pk items rows ↔ t ∈ rows.map (project pk items) := by
+  simp only [selectRows]
+  cases h : needsDistinct pk items with
+  | true => exact ⟨by simpa using nodup_dedup _, fun t => by simp only [if_true]; exact mem_dedup t _⟩
+  | false =>
+    refine ⟨?_, fun t => by simp⟩
+    simpa using nodup_map_of_sep (project pk items) (keyOf pk) rows
+      (fun a _ b _ hab => project_separates pk items h a b hab) hkeys
+
+/-- **C01_distinct_exact** — the rule is exact: whenever it asks for DISTINCT there is a table (with pairwise different keys) whose
+    plain projection does contain a duplicate; so "the result is a set without DISTINCT  iff  the entity or its whole key is
+    projected". -/
+theorem C01_distinct_exact (pk : List String) (items : List Item) (h : needsDistinct pk items = true) :
+    ∃ rows : List DRow, (rows.map (keyOf pk)).Nodup ∧ ¬ (rows.map (project pk items)).Nodup := by
+  simp only [needsDistinct, Bool.and_eq_true, Bool.not_eq_true', List.any_eq_true] at h
+  obtain ⟨hent, k, hk, hkitems⟩ := h
+  have hent' : Item.entity ∉ items := by simpa using hent
+  have hk' : Item.attr k ∉ items := by simpa using hkitems
+  let r1 : DRow := ⟨fun _ => 0, fun _ => 0⟩
+  let r2 : DRow := ⟨fun n => if n = k then 1 else 0, fun _ => 0⟩
+  refine ⟨[r1, r2], ?_, ?_⟩
+  · simp only [List.map_cons, List.map_nil, List.nodup_cons, List.mem_singleton, List.not_mem_nil, not_false_eq_true,
+      List.nodup_nil, and_true]
+    intro heq
+    have := map_eq_at r1.attr r2.attr pk heq k hk
+    simp [r1, r2] at this
+  · have hp : project pk items r1 = project pk items r2 := by
+      simp only [project]
+      apply List.map_congr_left
+      intro it hit
+      cases it with
+      | entity => exact absurd hit hent'
+      | attr n =>
+        have : n ≠ k := fun e => hk' (e ▸ hit)
+        simp [itemVal, r1, r2, this]
+      | expr i => simp [itemVal, r1, r2]
+    simp [hp]
+
+/-- a composite key with a proper subset projected needs DISTINCT; the whole key does not -/
+example : needsDistinct ["name", "semester"] [.attr "semester"] = true := by decide
+example : needsDistinct ["name", "semester"] [.attr "name", .expr 0] = true := by decide
+example : needsDistinct ["name", "semester"] [.attr "semester", .attr "credits", .attr "name"] = false := by decide
 
 end PonyVerif.Props.C01
